@@ -54,9 +54,7 @@ def run(tier):
         ln = v["line"]
         ctx = [x if x["ev"] != "Compute" else dict(x, v=x["v"][:40]) for x in recs[max(0, ln - 8):ln]]
         rep.violation(v["clause"], v["site"], v["cond"], {"line": ln, "context": ctx, "trace": trace})
-    # 3. binding self-test
-    selftest(recs, wd)
-    return rep.finish(
+    rc = rep.finish(
         rule="seeded random histories (update_local_trust, TrustProvider::update_trust, update_node_stats all 9 kinds with "
              "amounts up to 2^40, add/remove pre-trusted, TrustProvider::remove_node, P2PNode::report_peer_*) over 1..600 "
              "identities on twin real engines; a case = one published score vector (content) or one per-peer query "
@@ -69,6 +67,14 @@ def run(tier):
         extra={"events": res["total"], "clause_evaluations": cnt, "violation_counts": res["keys"],
                "fallback_computes": cnt["fallback"], "p2pnode_segments": p2p_ok,
                "tolerances_ppb": {"sum": 2000, "monotone": 1000, "deterministic": 1000, "query": 0}})
+    # 3. binding self-test (after the verdict, so that a tool problem can never hide a violation)
+    try:
+        selftest(recs, wd)
+    except vlib.ToolError:
+        if rc != 1:
+            raise
+        print("[verif] self-test failed as well; verdict above stands", flush=True)
+    return rc
 
 
 def selftest(recs, wd):
@@ -115,12 +121,25 @@ def selftest(recs, wd):
             break
     if len(muts) < 3:
         raise vlib.ToolError("self-test: trace has no usable events (%s)" % sorted(muts))
-    ref_p = os.path.join(wd, "selftest_ref.ndjson")
-    vlib.write_ndjson(ref_p, cut)
-    ref, _ = vlib.validate_trace(TRACE_MOD, TRACE_MOD + ".cfg", ref_p, os.path.join(wd, "selftest_ref.json"))
-    for name, t in sorted(muts.items()):
-        p = os.path.join(wd, "selftest_%s.ndjson" % name)
-        vlib.write_ndjson(p, t)
-        got, _ = vlib.validate_trace(TRACE_MOD, TRACE_MOD + ".cfg", p, os.path.join(wd, "selftest.json"))
-        if got["nviol"] <= ref["nviol"]:
-            raise vlib.ToolError("self-test %s: corrupted trace was not rejected" % name)
+    if cut[0]["ev"] != "Reset":
+        raise vlib.ToolError("self-test: trace does not start with Reset")
+    # one acceptor run over ref ++ mutants; every part starts with a Reset, the acceptor reports the cumulative
+    # violation count at each Reset (marks), so the count of every part is exact
+    names = ["ref"] + sorted(muts)
+    parts = [cut] + [muts[k] for k in sorted(muts)]
+    starts, allrecs = [], []
+    for t in parts:
+        starts.append(len(allrecs) + 1)
+        allrecs += t
+    p = os.path.join(wd, "selftest.ndjson")
+    vlib.write_ndjson(p, allrecs)
+    got, _ = vlib.validate_trace(TRACE_MOD, TRACE_MOD + ".cfg", p, os.path.join(wd, "selftest.json"))
+    cum = {m[0]: m[1] for m in got["marks"]}
+    counts = []
+    for i, st in enumerate(starts):
+        end = cum[starts[i + 1]] if i + 1 < len(starts) else got["nviol"]
+        counts.append(end - cum[st])
+    for name, c in zip(names[1:], counts[1:]):
+        if c <= counts[0]:
+            raise vlib.ToolError("self-test %s: corrupted trace was not rejected (%d vs %d)" % (name, c, counts[0]))
+    vlib.log("self-test: violations per part %s" % dict(zip(names, counts)))
